@@ -351,7 +351,8 @@ def gen_concat(draw):
     use = list(range(k))
     for _ in range(draw(st.sampled_from([0, 0, 1, 2]))):      # same tensor several times
         use.insert(draw(st.integers(0, len(use))), draw(st.integers(0, k - 1)))
-    return {"xs": xs, "args": {"dim": dim, "use": use, "seq": draw(st.sampled_from(["list", "tuple"]))}}
+    return {"xs": xs, "args": {"dim": dim, "use": use, "seq": draw(st.sampled_from(["list", "tuple"])),
+                               "mutate_after": draw(st.booleans())}}
 
 
 def _seq(ts, args):
@@ -359,8 +360,17 @@ def _seq(ts, args):
     return tuple(ops) if args.get("seq") == "tuple" else list(ops)
 
 
+def _after(seq, args):
+    """the caller re-uses its own list after the call: the recorded operation must not depend on it any more"""
+    if isinstance(seq, list) and args.get("mutate_after"):
+        seq.clear()
+
+
 def apply_concat(ts, args):
-    return sg.concat(_seq(ts, args), args["dim"])
+    seq = _seq(ts, args)
+    out = sg.concat(seq, args["dim"])
+    _after(seq, args)
+    return out
 
 
 def ref_concat(xs, args):
@@ -390,16 +400,17 @@ def gen_stack(draw):
     use = list(range(k))
     for _ in range(draw(st.sampled_from([0, 0, 1]))):
         use.insert(draw(st.integers(0, len(use))), draw(st.integers(0, k - 1)))
-    args = {"dim": dim, "use": use, "seq": draw(st.sampled_from(["list", "tuple"]))}
+    args = {"dim": dim, "use": use, "seq": draw(st.sampled_from(["list", "tuple"])), "mutate_after": draw(st.booleans())}
     if dim == 0 and draw(st.booleans()):
         args["default_dim"] = True
     return {"xs": xs, "args": args}
 
 
 def apply_stack(ts, args):
-    if args.get("default_dim"):
-        return sg.stack(_seq(ts, args))
-    return sg.stack(_seq(ts, args), args["dim"])
+    seq = _seq(ts, args)
+    out = sg.stack(seq) if args.get("default_dim") else sg.stack(seq, args["dim"])
+    _after(seq, args)
+    return out
 
 
 def ref_stack(xs, args):
@@ -927,6 +938,7 @@ def full_case(draw, op, need_grad=True):
     c["param"] = [draw(st.sampled_from([False, False, True])) for _ in range(n)]   # operand is an nn.Parameter
     c["scale"] = draw(st.sampled_from(list(op.scales)))
     c["wrap"] = draw(st.booleans())
+    c["twice"] = draw(st.sampled_from([False, False, False, True]))     # differentiate the same graph a second time
     if op.multi:
         c["oi"] = draw(st.integers(0, 7))
     return c
